@@ -378,6 +378,39 @@ def run(F, R):
             else:
                 R.violated('X3', inst, site(sg, n), 'the connection table is mutated with Vec::%s, which does not target the connection that was looked up '
                            '(an unrelated connection can be dropped)' % meth)
+        # X9 a peer's disconnect on a drained connection closes it: on every successful path of the poll method on which the event is a
+        # disconnect and the receive buffer is empty, the looked-up entry is removed; a reset is sent exactly on the edge where the
+        # reason equals the constant it is compared with (the peer *shut down*; after a peer reset nothing is sent back)
+        if b['kind'] == 'AssocFn' and b.get('pub') and any(True for _ in sg.calls(lambda d: d.get('fn') in sock_ops and sock_ops[d['fn']] == 'poll')) and not back_edges(sg):
+            try:
+                pths = [p_ for p_ in PathEnum(sg).run() if not p_.panicked]
+            except PathLimit:
+                pths = []
+            bad9 = None
+            seen9 = 0
+            for p_ in pths:
+                emp = None
+                for c_ in p_.conds:
+                    d_ = c_[0]
+                    if d_[0] == 'call' and d_[2] in ring and d_[2].endswith('::is_empty'):
+                        emp = (c_[1][0] == 'notin' and 0 in c_[1][1]) or (c_[1][0] == 'in' and 0 not in c_[1][1])
+                if not emp:
+                    continue
+                rc = [c_ for c_ in p_.conds if c_[0][0] == 'bin' and c_[0][1] in ('Eq', 'Ne') and 'Disconnected).reason' in fmt(c_[0])]
+                if not rc:
+                    continue
+                seen9 += 1
+                truth = (rc[-1][1][0] == 'notin' and 0 in rc[-1][1][1]) or (rc[-1][1][0] == 'in' and 0 not in rc[-1][1][1])
+                equal = truth if rc[-1][0][1] == 'Eq' else not truth
+                fc = any(e_[0] == 'call' and sock_ops.get(e_[2]) == 'force_close' for e_ in p_.effects)
+                rm = any(e_[0] == 'call' and e_[2].startswith('alloc::vec::Vec::') and e_[2].rsplit('::', 1)[1] in ('swap_remove', 'remove') for e_ in p_.effects)
+                if fc != equal:
+                    bad9 = 'a reset is sent on the edge where the disconnect reason %s the compared constant' % ('differs from' if fc else 'equals')
+                if err_variant(p_.ret) == 'Ok' and not rm:
+                    bad9 = 'the entry of a drained connection is not removed when the peer disconnects'
+            if seen9:
+                R.check(bad9 is None, 'X3', '%s:disconnect-closes-drained-connection' % b['id'], where, 'drained connection removed on disconnect; reset only for the compared reason (%d paths)' % seen9,
+                        'peer disconnect handling: %s' % bad9)
         # X2 lookups first
         if b.get('pub') and 'VsockAddr' in b.get('sig', '') and ems:
             n_ops += 1
